@@ -4,6 +4,7 @@ import (
 	"bytes"
 	"encoding/binary"
 	"fmt"
+	"math"
 	"reflect"
 
 	"github.com/openacid/slim/encode"
@@ -95,6 +96,13 @@ type te3 struct {
 	V int8
 }
 
+// non-struct element types: named scalars, a plain scalar, an array, a float
+type teDur int64
+type teID uint16
+type teArr [3]uint16
+
+const teKinds = 8
+
 func putOrd(b []byte, v uint64, w int, big bool) []byte {
 	for i := 0; i < w; i++ {
 		sh := uint(8 * i)
@@ -117,7 +125,7 @@ func typeEncCase(which int, p []byte, big bool) (interface{}, []byte) {
 		}
 		return r.next()
 	}
-	switch which % 3 {
+	switch which % teKinds {
 	case 0:
 		a, b0, b1, b2, c := nx(), nx(), nx(), nx(), nx()
 		v := te1{A: uint16(a), B: [3]int8{int8(b0), int8(b1), int8(b2)}, C: int32(c)}
@@ -136,6 +144,28 @@ func typeEncCase(which int, p []byte, big bool) (interface{}, []byte) {
 		ref = append(ref, byte(pp))
 		ref = putOrd(ref, qq, 2, big)
 		return v, ref
+	case 3:
+		x := nx()
+		return teDur(int64(x)), putOrd(nil, x, 8, big)
+	case 4:
+		x := nx()
+		return teID(uint16(x)), putOrd(nil, x, 2, big)
+	case 5:
+		a, b, c := nx(), nx(), nx()
+		var ref []byte
+		for _, m := range []uint64{a, b, c} {
+			ref = putOrd(ref, m, 2, big)
+		}
+		return teArr{uint16(a), uint16(b), uint16(c)}, ref
+	case 6:
+		x := nx()
+		return int32(x), putOrd(nil, x, 4, big)
+	case 7:
+		x := nx() & 0x7fbfffff // keep away from NaN payloads: NaN != NaN
+		if x&0x7f800000 == 0x7f800000 {
+			x &^= 0x00800000
+		}
+		return math.Float32frombits(uint32(x)), putOrd(nil, x&0xffffffff, 4, big)
 	default:
 		m0, m1, m2, m3, u, vv := nx(), nx(), nx(), nx(), nx(), nx()
 		v := te3{M: [2][2]int16{{int16(m0), int16(m1)}, {int16(m2), int16(m3)}}, U: u, V: int8(vv)}
@@ -154,11 +184,21 @@ func typeEncCase(which int, p []byte, big bool) (interface{}, []byte) {
 // 2: NewTypeEncoderEndianByType, 3: NewTypeEncoder (little-endian default; only when !big).
 func typeEncoderFor(which int, big bool, ctor int) (encode.Encoder, error) {
 	var zero, ptr interface{}
-	switch which % 3 {
+	switch which % teKinds {
 	case 0:
 		zero, ptr = te1{}, &te1{}
 	case 1:
 		zero, ptr = te2{}, &te2{}
+	case 3:
+		zero, ptr = teDur(0), new(teDur)
+	case 4:
+		zero, ptr = teID(0), new(teID)
+	case 5:
+		zero, ptr = teArr{}, &teArr{}
+	case 6:
+		zero, ptr = int32(0), new(int32)
+	case 7:
+		zero, ptr = float32(0), new(float32)
 	default:
 		zero, ptr = te3{}, &te3{}
 	}
